@@ -61,6 +61,14 @@ def cases(tier, rng, dist):
         resp = [[rng.choice([rng.randint(-5, 5), round(rng.gauss(0, 2), 2)]) for _ in range(2)] for _ in range(n)]
         yield {"f": "testfn", "g": g, "resp": resp, "fn": rng.choice(["mean_diff", "ttest", "anova"]), "idx": rng.randrange(2), "strlabels": False, "labset": rng.choice(["int", "str", "wide", "neg"])}
     yield {"f": "types"}
+    # the stratification in force is the Experiment's CURRENT first covariate: the caller edits it in place between two
+    # randomizations, or two Experiments with different strata share one Randomizer
+    for _ in range(30 if tier == "quick" else 300):
+        n = rng.randint(3, 7)
+        gg = [0, 1] + [rng.randrange(2) for _ in range(n - 2)]; rng.shuffle(gg)     # both labels present (mean_diff needs two groups)
+        yield {"f": "restrat", "g": gg, "s1": [rng.randint(0, 2) for _ in range(n)], "s2": [rng.randint(0, 2) for _ in range(n)],
+               "mode": rng.choice(["edit_in_place", "edit_in_place", "rebind", "shared_randomizer"]), "first": rng.choice(["randomize", "sim_npc", "wy"]),
+               "aseed": rng.randint(0, 10**9)}
     for s in range(6 if tier == "quick" else 30):
         yield {"f": "repro", "seed": 100 + s, "strat": bool(s % 2)}
 
@@ -97,10 +105,46 @@ def mk_tests(spec):
     return out
 
 
+def run_restrat(c):
+    import random as _r
+    n = len(c["g"])
+    t = Tape(None, lazy(_r.Random(c["aseed"]), "random"))
+    R = Experiment.Randomizer(randomize=NPC.randomize_in_strata, seed=t)
+    resp = [[float(i)] for i in range(n)]
+    e = Experiment(group=list(c["g"]), response=resp, covariate=[[v, 7] for v in c["s1"]], randomizer=R)
+    tests = Experiment.make_test_array(Experiment.TestFunc.mean_diff, [0])
+    def first(ex):
+        if c["first"] == "randomize":
+            ex.randomize(in_place=True)
+        elif c["first"] == "sim_npc":
+            NPC.sim_npc(ex, tests * 2, reps=2, in_place=True)
+        else:
+            NPC.westfall_young(ex, tests, reps=2, in_place=True)
+    r1 = guarded(lambda: first(e))
+    g1 = [int(v) for v in e.group]
+    k0 = len(t.log)
+    if c["mode"] == "edit_in_place":
+        e.covariate[:, 0] = np.array(c["s2"]); target = e
+    elif c["mode"] == "rebind":
+        e.covariate = np.array([[v, 7] for v in c["s2"]]); target = e
+    else:
+        target = Experiment(group=list(g1), response=resp, covariate=[[v, 7] for v in c["s2"]], randomizer=R)
+    r2 = guarded(lambda: target.randomize(in_place=True))
+    g2 = [int(v) for v in target.group]
+    window = [a for (_, a) in t.log[k0:]]
+    # reference: a fresh Experiment in the same state (assignment g1, strata s2) with a replay generator holding the window
+    t3 = Tape(list(window))
+    ref = Experiment(group=list(g1), response=resp, covariate=[[v, 7] for v in c["s2"]], randomizer=Experiment.Randomizer(randomize=NPC.randomize_in_strata, seed=t3))
+    r3 = guarded(lambda: ref.randomize(in_place=True))
+    return {"r": [list(r1)[:2], list(r2)[:2], list(r3)[:2]], "g1": g1, "g2": g2, "ref": [int(v) for v in ref.group], "left": len(t3.answers)}
+
+
 def run(c):
     f = c["f"]
     if f == "history":
         return run_history(c)
+    if f == "restrat":
+        return run_restrat(c)
     if f == "testfn":
         e = Experiment(group=labels_of(c), response=c["resp"])
         fn = {"mean_diff": Experiment.TestFunc.mean_diff, "ttest": Experiment.TestFunc.ttest, "anova": Experiment.TestFunc.one_way_anova}[c["fn"]]
@@ -268,8 +312,27 @@ def run_history(c):
 
 
 # ------------------------------------------------------------------------------------------------
+def oracle_restrat(c, o):
+    if any(r[0] != "ok" for r in o["r"][:2]):
+        _v = emit({"why": f"randomization raised {o['r']}", "cls": "experiment:raises"})
+        if _v: return _v
+    for k in set(c["s2"]):
+        a = sorted(o["g1"][i] for i in range(len(c["s2"])) if c["s2"][i] == k); b = sorted(o["g2"][i] for i in range(len(c["s2"])) if c["s2"][i] == k)
+        if a != b:
+            _v = emit({"why": f"after the strata were changed to {c['s2']} ({c['mode']}; earlier strata {c['s1']}, first call {c['first']}), randomize_in_strata turned {o['g1']} into {o['g2']}: labels moved between the current strata",
+                       "cls": "experiment:strata-violated"})
+            if _v: return _v
+    if o["r"][2][0] != "ok" or o["ref"] != o["g2"] or o["left"] != 0:
+        _v = emit({"why": f"randomization after a change of strata ({c['mode']}, {c['s1']} -> {c['s2']}) gives {o['g2']}; a fresh Experiment in the same state on the same answers gives {o['ref']} (answers left: {o['left']})",
+                   "cls": "experiment:irreproducible"})
+        if _v: return _v
+    return None
+
+
 def oracle(c, o):
     f = c["f"]
+    if f == "restrat":
+        return oracle_restrat(c, o)
     if f == "types":
         for k, v in o.items():
             if v[0] != "exc" or v[1] != "ValueError":
